@@ -417,6 +417,10 @@ func genCase(t *rapid.T) Case {
 		c.Out = "out"
 		c.OutExists = rapid.Bool().Draw(t, "outexists")
 		feat["out:relative"] = true
+		if c.OutExists && gen.Chance(t, "outsymlink", 40) {
+			c.OutSymlink = true
+			feat["out:symlink-to-directory"] = true
+		}
 	case 2:
 		c.Out = "out/deep/er"
 		feat["out:nested-missing"] = true
